@@ -50,7 +50,7 @@ struct Disc
 void make_disc(MemDrive& d, Disc& k)
 {
   d.s0 = DFS::SectorBuffer(); d.s1 = DFS::SectorBuffer();
-  k.n = vf_nondet_u8(); vf_assume(k.n <= CMD_ENTRIES);
+  k.n = CMD_ENTRIES;        // the number of entries is a constant per query: vectors of symbolic length are out of reach (measured: out of memory)
   k.total = vf_nondet_u16(); vf_assume(k.total >= 3 && k.total <= 800);
   d.total = 800;
   d.s1[5] = static_cast<DFS::byte>(8 * k.n);
@@ -77,18 +77,35 @@ void make_disc(MemDrive& d, Disc& k)
     }
 }
 
-// the k-th number printed on standard output
-bool cout_num(unsigned k, unsigned long *val, unsigned *base)
+// the numbers printed on standard output, in order (one pass over the event log)
+constexpr unsigned MAXNUM = 10;
+unsigned long num_val[MAXNUM]; unsigned num_base[MAXNUM]; unsigned nnum;
+void collect_nums()
 {
-  unsigned seen = 0;
+  nnum = 0;
   for (unsigned i = 0; i < vfio::MAXEV; ++i)
     if (i < vfio::nev && vfio::ev_stream[i] == 1 && vfio::ev_kind[i] == vfio::K_NUM)
       {
-        if (seen == k) { *val = vfio::ev_val[i]; *base = vfio::ev_base[i]; return true; }
-        ++seen;
+        if (nnum < MAXNUM) { num_val[nnum] = vfio::ev_val[i]; num_base[nnum] = vfio::ev_base[i]; }
+        ++nnum;
       }
-  return false;
 }
+bool cout_num(unsigned k, unsigned long *val, unsigned *base)
+{
+  if (k >= nnum || k >= MAXNUM) return false;
+  *val = num_val[k]; *base = num_base[k];
+  return true;
+}
+}
+
+// StorageConfiguration::mount is replaced (ir2c --replace) by this stub: the real mount path (two std::maps, a cache,
+// FileSystem with its volume map) made the query run out of memory; what the commands need from it is a Volume
+// on the drive, which the stub builds with the REAL Volume/Catalog constructors.
+static MemDrive *the_drive;
+std::optional<DFS::VolumeMountResult> stub_mount(const DFS::StorageConfiguration *, const DFS::VolumeSelector&, std::string&)
+{
+  DFS::Volume *v = new DFS::Volume(DFS::Format::DFS, 0, 0, 800, *the_drive);
+  return DFS::VolumeMountResult(std::unique_ptr<DFS::FileSystem>(), v);
 }
 
 // ---------------------------------------------------------------- C14-S2: free
@@ -97,16 +114,18 @@ extern "C" void h_cmd_free(void)
   MemDrive drive; Disc k;
   make_disc(drive, k);
   DFS::StorageConfiguration storage;
-  std::vector<std::optional<DFS::DriveConfig>> drives;
-  drives.emplace_back(DFS::DriveConfig(DFS::Format::DFS, &drive));
-  const bool connected = storage.connect_drives(drives, DFS::DriveAllocation::FIRST);
-  vf_assert(connected, "the image is attached");
+  the_drive = &drive;
+#ifdef VF_NATIVE
+  // the native build (replay / translator validation) has no call redirection: attach the drive for real
+  { std::vector<std::optional<DFS::DriveConfig>> drives; drives.emplace_back(DFS::DriveConfig(DFS::Format::DFS, &drive)); storage.connect_drives(drives, DFS::DriveAllocation::FIRST); }
+#endif
   DFS::DFSContext ctx('$', DFS::VolumeSelector(0));
   CommandFree cmd;
   std::vector<std::string> args; args.push_back("free");
   bool ok = false, threw = false;
   try { ok = cmd.invoke(storage, ctx, args); } catch (std::exception&) { threw = true; }
   vf_assert(!threw && ok, "free succeeds on a well-formed disc");
+  collect_nums();
   // expected figures
   unsigned used = 2;
   for (unsigned i = 0; i < CMD_ENTRIES; ++i) if (i < k.n && k.start[i] + k.secs[i] > used) used = k.start[i] + k.secs[i];
@@ -119,8 +138,12 @@ extern "C" void h_cmd_free(void)
       if (have) vf_assert(base == ((j % 3 == 1) ? 16u : 10u), "sector counts in hexadecimal, files and bytes in decimal");
     }
   vf_observe(used); vf_observe(k.n);
-  if (k.n == CMD_ENTRIES && used == k.total) vf_witness("full disc");
-  if (k.n == 0) vf_witness("empty disc");
+#if CMD_ENTRIES > 0
+  if (used == k.total) vf_witness("full disc");
+  if (used < k.total && k.len[0] == 0) vf_witness("zero-length file last on the disc");
+#else
+  vf_witness("empty disc");
+#endif
 }
 
 // ---------------------------------------------------------------- C14-S3: space
@@ -129,15 +152,18 @@ extern "C" void h_cmd_space(void)
   MemDrive drive; Disc k;
   make_disc(drive, k);
   DFS::StorageConfiguration storage;
-  std::vector<std::optional<DFS::DriveConfig>> drives;
-  drives.emplace_back(DFS::DriveConfig(DFS::Format::DFS, &drive));
-  storage.connect_drives(drives, DFS::DriveAllocation::FIRST);
+  the_drive = &drive;
+#ifdef VF_NATIVE
+  // the native build (replay / translator validation) has no call redirection: attach the drive for real
+  { std::vector<std::optional<DFS::DriveConfig>> drives; drives.emplace_back(DFS::DriveConfig(DFS::Format::DFS, &drive)); storage.connect_drives(drives, DFS::DriveAllocation::FIRST); }
+#endif
   DFS::DFSContext ctx('$', DFS::VolumeSelector(0));
   CommandSpace cmd;
   std::vector<std::string> args; args.push_back("space");
   bool ok = false, threw = false;
   try { ok = cmd.invoke(storage, ctx, args); } catch (std::exception&) { threw = true; }
   vf_assert(!threw && ok, "space succeeds on a well-formed disc");
+  collect_nums();
   // expected: the runs of unallocated sectors in ascending disc order: catalogue..lowest file, between files, last file..end
   unsigned gaps[CMD_ENTRIES + 1]; unsigned ng = 0; unsigned long sum = 0;
   unsigned pos = 2;
@@ -160,5 +186,7 @@ extern "C" void h_cmd_space(void)
   vf_assert(!cout_num(2 + ng, &v, &base), "nothing else is listed");
   vf_observe(ng); vf_observe(sum);
   if (ng == CMD_ENTRIES + 1) vf_witness("gap before, between and after the files");
+#if CMD_ENTRIES > 0
   if (ng == 0) vf_witness("no free space at all");
+#endif
 }
